@@ -92,6 +92,7 @@ def gen(seed, tier="quick"):
     active = []
     hid = 0
     imported_any = False
+    pending_enter = []
     for _ in range(r.randrange(6, 17)):
         x = r.random()
         if x < 0.28:
@@ -105,11 +106,19 @@ def gen(seed, tier="quick"):
                 op["api"] = "pytest"
                 op["checker"] = r.choice(("a", "b"))
             ops.append(op)
+            if op.get("api") != "pytest" and op["with"] and r.random() < 0.35:
+                op["enter_later"] = True  # `with hook:` is entered a few operations after the install call
+                pending_enter.append(op["id"])
             if op.get("api") != "pytest":
                 active.append((op["id"], names, op["with"]))
+        elif x < 0.34 and pending_enter:
+            ops.append({"op": "enter", "id": pending_enter.pop(r.randrange(len(pending_enter)))})
         elif x < 0.42 and active:
             i = r.randrange(len(active))
             hid_, _, w = active[i]
+            if hid_ in pending_enter:  # never entered: leave it by the explicit call
+                pending_enter.remove(hid_)
+                w = False
             ops.append({"op": "uninstall", "id": hid_, "with": w})
             if r.random() < 0.7:
                 active.pop(i)  # else: may be uninstalled a second time later
@@ -129,7 +138,7 @@ def gen(seed, tier="quick"):
             ops.append({"op": "reload", "module": r.choice(MODULES)})
     if r.random() < 0.5:
         for hid_, _, w in active:
-            ops.append({"op": "uninstall", "id": hid_, "with": w})
+            ops.append({"op": "uninstall", "id": hid_, "with": w and hid_ not in pending_enter})
         ops.append({"op": "import", "module": r.choice(MODULES)})
     return {"engine": ENGINE, "property": PID, "seed": seed, "forest": forest,
             "runs": [{"ops": ops, "check_finders": True}], "bytecode": False,
